@@ -17,6 +17,8 @@ RULE = ("Generated training runs: state type (3), n 1..3, N 1..9 rows (bases per
         "energy gradient over v_k; theta_{t+1} = theta_t - lr_t*grad_t; one step per batch; lr constant within an epoch and "
         "multiplied by gamma exactly once between epochs. Non-trivial = neg_batch_size != pos_batch_size, N not a multiple of "
         "the batch size, k >= 1, >= 2 steps and (complex/density) a rotated row present.")
+RULE_EXT = ('Extended as built: up to three consecutive fit() stages (optionally reinitialising in between) on the same state, optimizer_args dict must be unchanged, positive batches must be data rows, neg_batch_size up to 300, polarised parameters / rare outcomes, runs stopped by a divergence guard are counted as excluded.')
+RULE = RULE + " " + RULE_EXT
 ASSUMPTIONS = ["outcomes drawn from the reference Born distribution at the initial parameters; a run is only followed while the reference gradient stays finite and < 1e6",
                "gradient tolerance 1e-6*(1+max|g_ref|), SGD update rtol 1e-12 (fused add differs from b - lr*g by 1 ulp)"]
 
